@@ -40,8 +40,15 @@ Definition pm_parse (c : sx) : sx :=
    case (profile libm text state (name ...))  ->  the whole state after parsing
    "parse.st.check": EXEC is the independent spec_parse over (registered ++ extra) names, and every other
    field of the state is what it was. *)
-Definition pm_parse_st (c : sx) : sx :=
+(* a 6th element (items the harness EXECUTES with the same InstructionSet before parsing: lookups must not register anything) is ignored *)
+Definition drop_warm (c : sx) : sx :=
   match c with
+  | SL [pr; tab; text; st; extra; _] => SL [pr; tab; text; st; extra]
+  | _ => c
+  end.
+
+Definition pm_parse_st (c : sx) : sx :=
+  match drop_warm c with
   | SL [pr; tab; text; st; extra] =>
       match un_profile pr, un_libm tab, un_zlist text, un_state st, un_list un_zlist extra with
       | Some p, Some tab, Some text, Some s, Some extra =>
@@ -53,7 +60,7 @@ Definition pm_parse_st (c : sx) : sx :=
   end.
 
 Definition pm_parse_st_check (c : sx) : sx :=
-  match c with
+  match (match c with SL [case; obs] => SL [drop_warm case; obs] | _ => c end) with
   | SL [SL [pr; tab; text; st; extra]; obs] =>
       match un_profile pr, un_libm tab, un_zlist text, un_state st, un_list un_zlist extra with
       | Some p, Some tab, Some text, Some s, Some extra =>
